@@ -35,6 +35,45 @@ Proof. intros H1 H2 H3. unfold own_pdu. rewrite H1, H2, H3. destruct (m_cpr m) a
 Lemma lo8_mod x : (x mod 65536) mod 256 = lo8 x. Proof. unfold lo8. nlia. Qed.
 Lemma hi8_mod x : ((x mod 65536) / 256) mod 256 = hi8 x. Proof. unfold hi8. nlia. Qed.
 
+
+Lemma has_closed_irrelevant : True. Proof. exact I. Qed.
+
+Lemma ev_go c (Hc : cfg_ok27 c = true) s3 m2 e due it1 s9 it9 :
+  PR c s3 m2 -> own_ok s3 m2 -> st s3 = Connected -> tw_size (tm s3) = 0 -> disc_reason s3 = 8 -> enc_prog (sc s3) = false ->
+  m_conn m2 = true -> m_stop m2 = false ->
+  Matches c due (ctrl (unaired s3)) ->
+  (m_ver_sent m2 = true -> nver due = 0%nat) -> (nver due <= 1)%nat -> (ver_received (pr s3) = false -> nver due = 0%nat) ->
+  (proc_timeout s3 <> 0 -> m_t m2 = tsle (cs s3)) ->
+  has_adv it1 = false ->
+  end_event_continue c s3 e = Some (s9, it9) ->
+  exists m',
+    (let due22 := negb (m_timer m2 =? 0) && (m_timer m2 <=? m_t m2) in
+     if has_adv (it1 ++ snd (end_event_epilogue c s9 it9))
+     then if due22 then (Ok, ended c m2)
+          else if has_closed (it1 ++ snd (end_event_epilogue c s9 it9)) 34 then (Bad 6, m2) else (Ok, ended c m2)
+     else if due22 then (Bad 5, m2)
+     else let m3 := if m_timer m2 =? 0 then m2 else set_m_timer m2 (m_timer m2 - m_t m2) in
+          let '(due', m4) := if m_txa m3 then match own_pdu m3 with Some (e0, m') => (due ++ [e0], m') | None => (due, m3) end else (due, m3) in
+          (Ok, with_t (set_m_exp m4 due') (it1 ++ snd (end_event_epilogue c s9 it9)))) = (Ok, m')
+    /\ (Loose m' \/ Tight c (fst (end_event_epilogue c s9 it9)) m').
+Proof.
+  intros HPR HO Hst Htw Hdr Hep Hcn Hsp HM V1 V2 V3 Ht Ha E.
+  pose proof HPR as (P1 & P2 & P3 & P4 & P5 & P6 & P7 & P8 & P9 & P10 & P11 & P12).
+  destruct HO as (O1 & O2 & O3 & O4 & O5 & O6).
+  unfold end_event_continue in E.
+  assert (ED : negb (m_timer m2 =? 0) && (m_timer m2 <=? m_t m2) = procedure_timed_out s3).
+  { unfold procedure_timed_out. rewrite P6. destruct (proc_timeout s3 =? 0) eqn:E0; [reflexivity|]. rewrite Ht by lia. reflexivity. }
+  cbv zeta. rewrite ED. destruct (procedure_timed_out s3) eqn:D.
+  - (* the procedure response timeout *)
+    inversion E as [E']. unfold force_disconnect_reason in E'.
+    pose proof (force_disconnect_st c (set_disc_reason s3 GenLL.connection_ll_response_timeout)) as F1.
+    pose proof (fd_has_adv c (set_disc_reason s3 GenLL.connection_ll_response_timeout)) as F2.
+    rewrite E' in F1, F2. cbn [fst snd] in F1, F2.
+    unfold end_event_epilogue. rewrite F1. cbn [flush_events snd fst].
+    rewrite !has_adv_app, F2, orb_true_r. exists (ended c m2). split; [reflexivity|left; left; reflexivity].
+  - admit.
+Admitted.
+
 Section Ev.
 Variable c : cfg.
 Hypothesis Hc : cfg_ok27 c = true.
